@@ -131,32 +131,63 @@ func ruleDBFilesUntouched(c *Ctx, r *Report, rule string) {
 
 func rulePnWinnersGuard(c *Ctx, r *Report, cat *SQLCat, rule string) {
 	r.rule(rule, 1, "graded records are stored only for blocks with winners")
+	spec := &guardSpec{
+		callee: "github.com/pegnet/pegnet/modules/grader.GradedBlock.Winners",
+		good: func(c *Ctx, g *ssa.Call) []*ssa.BasicBlock {
+			// the target of `0 < len(Winners())` (however the comparison is written)
+			var out []*ssa.BasicBlock
+			for _, b := range g.Parent().Blocks {
+				x, y, lt, _ := ordEdges(b)
+				if x == nil {
+					continue
+				}
+				isLenW := func(v ssa.Value) bool {
+					lc, isC := v.(*ssa.Call)
+					if !isC {
+						return false
+					}
+					bi, isB := lc.Call.Value.(*ssa.Builtin)
+					return isB && bi.Name() == "len" && sliceHas(lc.Call.Args[0], func(w ssa.Value) bool { return w == ssa.Value(g) })
+				}
+				// 0 < len(w): the less-than edge; len(w) >= 1 (written `len(w) < 1` with the branches swapped): the other edge
+				if k, isK := unwrapConv(x).(*ssa.Const); isK && k.Value != nil && k.Int64() == 0 && isLenW(y) {
+					out = append(out, lt)
+				}
+				if k, isK := unwrapConv(y).(*ssa.Const); isK && k.Value != nil && k.Int64() == 1 && isLenW(x) {
+					_, _, _, ge := ordEdges(b)
+					out = append(out, ge)
+				}
+			}
+			// `len(w) == 0` / `!= 0`: the not-equal edge
+			for _, b := range g.Parent().Blocks {
+				bo, ne, _ := eqEdges(b)
+				if bo == nil {
+					continue
+				}
+				for _, pair := range [][2]ssa.Value{{bo.X, bo.Y}, {bo.Y, bo.X}} {
+					k, isK := unwrapConv(pair[1]).(*ssa.Const)
+					if !isK || k.Value == nil || k.Value.Kind() != constant.Int || k.Int64() != 0 {
+						continue
+					}
+					if lc, isC := pair[0].(*ssa.Call); isC {
+						if bi, isB := lc.Call.Value.(*ssa.Builtin); isB && bi.Name() == "len" && sliceHas(lc.Call.Args[0], func(v ssa.Value) bool { return v == ssa.Value(g) }) {
+							out = append(out, ne)
+						}
+					}
+				}
+			}
+			return out
+		},
+		accept: func(c *Ctx, g *ssa.Call, _ ssa.Value) bool { return true },
+	}
 	n := 0
 	for _, st := range cat.Stmts {
 		if st.Table != "pn_winners" || st.Verb != "INSERT" || !c.RSync[st.Fn] {
 			continue
 		}
 		n++
-		f := st.Fn
-		okk := false
-		for _, b := range f.Blocks {
-			x, y, lt, _ := ordEdges(b)
-			if x == nil {
-				continue
-			}
-			k, isK := unwrapConv(x).(*ssa.Const)
-			if !isK || k.Value == nil || k.Int64() != 0 {
-				continue
-			}
-			lc, isC := y.(*ssa.Call)
-			if !isC {
-				continue
-			}
-			if bi, isB := lc.Call.Value.(*ssa.Builtin); isB && bi.Name() == "len" && isCallTo(lc.Call.Args[0], "Winners") && edgeTargetDom(lt, st.Site.Block()) {
-				okk = true
-			}
-		}
-		r.check(okk, rule, fname(f)+": INSERT pn_winners behind len(Winners()) > 0", c.ipos(st.Site), "", "the insert is not confined to blocks with winners: a block with fewer valid records than the winner count has graded records that all carry position 0, the second one violates UNIQUE(height, position), InsertGradeBlock fails and the block can never be synced - anybody can write such records")
+		okk := c.guardedByOutcome(st.Site, nil, spec, 0)
+		r.check(okk, rule, strings.Join(c.ownerNames(st.Fn), "/")+": INSERT pn_winners behind len(Winners()) > 0", c.ipos(st.Site), "", "the insert is not confined to blocks with winners: a block with fewer valid records than the winner count has graded records that all carry position 0, the second one violates UNIQUE(height, position), InsertGradeBlock fails and the block can never be synced - anybody can write such records")
 	}
 	if n == 0 {
 		r.viol(rule, "INSERT pn_winners found", "-", "no such statement on the sync path")
